@@ -66,7 +66,7 @@ Print Assumptions C16_confined_by_canonical_check_partial.
 Print Assumptions C16_benign_extracted.
 
 (* Tie A: the component filter in the source is the one the theorems are about *)
-Theorem C16_filter_is_the_source's :
+Theorem C16_filter_is_the_source_one :
   forall c, MLAGen.Src.component_action (embed_component c) = embed_action (component_action c).
 Proof. exact component_action_eq. Qed.
-Print Assumptions C16_filter_is_the_source's.
+Print Assumptions C16_filter_is_the_source_one.
